@@ -769,6 +769,8 @@ def boundary(rep, c, sfx):
     if len(unchecked) < 2:
         r.lost("unchecked constructors of Position and Span")
     cg = hirq.CallGraph([c])
+    global CRATE
+    CRATE = c
     TOKEN_POS_GETTERS.clear()
     TOKEN_POS_GETTERS.update(find_token_pos_getters(c))
     r.note("token-position getters (by role): %s" % sorted(TOKEN_POS_GETTERS))
@@ -931,6 +933,7 @@ def utf8_width_guard(ctx, node, step):
 
 
 TOKEN_POS_GETTERS = set()
+CRATE = None   # the crate BOUNDARY is analysing (for following helpers that return offsets)
 
 
 def find_token_pos_getters(c):
@@ -964,10 +967,31 @@ def offset_source(a, lets, fn, depth=0):
     if k == "MethodCall" and (e.get("path") in ("pest::position::Position::pos", "pest::span::Span::start",
                                                    "pest::span::Span::end") or e.get("path") in TOKEN_POS_GETTERS):
         return "method " + e["path"]
+    if k == "Call" and isinstance(callee(e), str) and callee(e) in TOKEN_POS_GETTERS:
+        return "function " + callee(e)
     if k == "Path" and e.get("res") == "local":
         lid = e["id"]
         if lid in lets:
             return offset_source(lets[lid][0], lets, fn, depth + 1)
+        # `let (start, end) = self.byte_range();` - a component of a tuple returned by a crate function, judged by what
+        # that function puts into the component
+        for st in walk(fn["body"] if "body" in fn else fn):
+            if st.get("k") == "Let" and st.get("init") is not None and st["pat"].get("k") == "PTuple":
+                idx = [i for i, q in enumerate(st["pat"]["pats"]) if any(bb[0] == lid for bb in hirq.pat_bindings(q))]
+                init = peel(st["init"])
+                if idx and kind(init) in ("Call", "MethodCall") and isinstance(callee(init), str) and CRATE is not None:
+                    h = CRATE.fn(callee(init))
+                    if h is not None and h.get("body") is not None:
+                        hl = hirq.lets(h["body"])
+                        srcs = []
+                        for leaf in hirq.tail_leaves(h["body"]) + [x["e"] for x in walk(h["body"]) if kind(x) == "Ret" and x.get("e")]:
+                            v = peel(leaf)
+                            if kind(v) == "Tup" and idx[0] < len(v["elems"]):
+                                srcs.append(offset_source(v["elems"][idx[0]], hl, h, depth + 1))
+                            else:
+                                srcs.append(None)
+                        if srcs and all(srcs):
+                            return "component %d of %s (%s)" % (idx[0], h["name"], ",".join(sorted(set(srcs))))
         # a pattern binding of a token's input_pos, or a parameter
         for n in walk(fn):
             if n.get("k") == "PStruct" and n.get("path", "").startswith(QT):
